@@ -9,6 +9,8 @@ stages: mc      every design of the family (all truth tables of 3 processes x in
                 and of the active-trigger set, as RTL fragments and with two fragments replaced by user processes
                 (guide patterns); every run must reproduce TLC's observation sequence (values, tick samples and
                 elapsed femtoseconds)"""
+import os
+
 from ..common import pmap, MachineryError
 from .. import sim_replay, tlaval
 
@@ -42,7 +44,7 @@ def run(ctx):
     for (period, phase) in clocks:
         full = (period, phase) == clocks[0]
         r = ctx.tlc("MC_AmSim", stage="mc/kernel-p%d-ph%d" % (period, phase),
-                    cfg_text=CFG.format(scripts="AllScriptSets" if th else "QuickScriptSets", fns="CombFns" if (full or th) else "FewFns", sfns="SyncFnsAll" if (full and th) else "SyncFnsFew", period=period, phase=phase, mutant=""),
+                    cfg_text=CFG.format(scripts=os.environ.get("VERIF_C08_SETS") or ("AllScriptSets" if th else "QuickScriptSets"), fns="CombFns" if (full or th) else "FewFns", sfns="SyncFnsAll" if (full and th) else "SyncFnsFew", period=period, phase=phase, mutant=""),
                     workers=16, args=("-coverage", "1"), timeout=3000)
         ctx.require_actions(r, ["TbStep", "TbIdle", "AdvanceTime", "RunProc", "Commit", "Converged"])
         done = {}
